@@ -306,6 +306,68 @@ def handleLit (j : Json) : Option Json := do
     | .oof => Json.mkObj [("r", "oof")]
   some (Json.mkObj [("lit", lit), ("pyeval", pe)])
 
+partial def parseMVal (j : Json) : Option C12.Val := do
+  let a ← getArr? j
+  match (← getStr? a[0]!) with
+  | "atom" => some (.atom (← getStr? a[1]!))
+  | "list" => some (.list (← (← getArr? a[1]!).toList.mapM parseMVal))
+  | "node" =>
+    let fs ← (← getArr? a[2]!).toList.mapM (fun f => do
+      let p ← getArr? f
+      some ((← getStr? p[0]!), (← parseMVal p[1]!)))
+    some (.node (← getStr? a[1]!) fs)
+  | _ => none
+
+partial def parseTm (j : Json) : Option C12.Tm := do
+  let a ← getArr? j
+  let q (s : String) : Option C12.Q := match s with
+    | "one" => some .one | "opt" => some .opt | "star" => some .star | "plus" => some .plus | _ => none
+  match (← getStr? a[0]!) with
+  | "ty" => some (.ty (← (← getArr? a[1]!).toList.mapM getStr?))
+  | "lit" => some (.lit (← getStr? a[1]!))
+  | "alt" => some (.alt (← (← getArr? a[1]!).toList.mapM parseTm))
+  | "set" => some (.setOf (← (← getArr? a[1]!).toList.mapM parseTm))
+  | "seq" => some (.seq (← (← getArr? a[1]!).toList.mapM (fun it => do
+      let p ← getArr? it
+      some ((← (getStr? p[0]!) >>= q), (← parseTm p[1]!)))))
+  | "wild" => some (.wild (← getStr? a[1]!) (← parseTm a[2]!))
+  | "anything" => some .anything
+  | "node" =>
+    let fs ← (← getArr? a[2]!).toList.mapM (fun f => do
+      let p ← getArr? f
+      some ((← getStr? p[0]!), (← parseTm p[1]!)))
+    some (.node (← getStr? a[1]!) fs)
+  | _ => none
+
+/-- canonical text: the exporter stores `core.unparse(node)` in the field `__key__` -/
+partial def mkey (v : C12.Val) : String :=
+  match v with
+  | .atom s => s
+  | .list xs => "[" ++ ", ".intercalate (xs.map mkey) ++ "]"
+  | .node _ fs => match fs.lookup "__key__" with | some (.atom s) => s | _ => "?"
+
+def handleMatch (j : Json) : Option Json := do
+  let v ← (field? j "val") >>= parseMVal
+  let t ← (field? j "tmpl") >>= parseTm
+  let hierJ ← field? j "hier"
+  let obj ← match hierJ.getObj? with | .ok o => some o | _ => none
+  let hier ← obj.toList.mapM (fun (kv : String × Json) => do
+    some (kv.1, (← (← getArr? kv.2).toList.mapM getStr?)))
+  let isinst (ty : String) (names : List String) : Bool :=
+    let bases := (hier.lookup ty).getD [ty]
+    names.any (fun n => bases.contains n)
+  match C12.matchT mkey isinst 200 v t with
+  | some b => some (Json.mkObj [("m", Json.bool true), ("b", Json.arr (b.map (fun p => Json.arr #[Json.str p.1, Json.str p.2])).toArray)])
+  | none => some (Json.mkObj [("m", Json.bool false)])
+
+def handlePerms (j : Json) : Option Json := do
+  let qs ← (field? j "qs") >>= getArr?
+  let qs ← qs.toList.mapM (fun x => do
+    match (← getStr? x) with
+    | "one" => some C12.Q.one | "opt" => some .opt | "star" => some .star | "plus" => some .plus | _ => none)
+  let n ← (field? j "n") >>= getNat?
+  some (Json.mkObj [("perms", Json.arr ((C12.perms qs n).map (fun c => Json.arr (c.map (fun (k : Nat) => Json.num k)).toArray)).toArray)])
+
 def dispatch (j : Json) : Json :=
   match (field? j "suite") >>= getStr? with
   | some "sched" => (handleSched j).getD bad
@@ -320,6 +382,8 @@ def dispatch (j : Json) : Json :=
   | some "blocking" => (handleBlocking j).getD bad
   | some "exec" => (handleExec j).getD bad
   | some "lit" => (handleLit j).getD bad
+  | some "match" => (handleMatch j).getD bad
+  | some "perms" => (handlePerms j).getD bad
   | _ => bad
 
 partial def loop (h : IO.FS.Stream) (out : IO.FS.Stream) : IO Unit := do
